@@ -404,6 +404,10 @@ def run_case_impl(args):
             f.write(toml_of(case["cfg"]))
     rund = os.path.join(d, "run")
     os.makedirs(rund, exist_ok=True)
+    if case["layout"] == "noargs":
+        # a trap next to the project: without a target argument only the working directory is checked
+        with open(os.path.join(d, "outside_trap.py"), "w") as f:
+            f.write(fn_complexity("trap", 25) + fn_dead_critical("trap_dead"))
     if case["decoy"] is not None:
         with open(os.path.join(rund, ".pyscn.toml"), "w") as f:
             f.write(toml_of(case["decoy"]))
